@@ -44,6 +44,37 @@ func (c *Check) c17H() {
 					}
 					n++
 					key := fmt.Sprintf("inlined-flag:%s#%d", fnName(g), n)
+					// line and flag read back from a list of (line, inlined) records that was
+					// built first: what was stored into those two fields of the records
+					if f0, ok0 := args[0].(*ssa.Field); ok0 {
+						if f1, ok1 := args[1].(*ssa.Field); ok1 && f0.X == f1.X {
+							lv := elemFieldValues(f0.X, f0.Field)
+							fv := elemFieldValues(f1.X, f1.Field)
+							if len(lv) == 1 && len(fv) == 1 {
+								args = []ssa.Value{lv[0], fv[0]}
+							}
+						}
+					}
+					// (the same with the record's fields read through the slot's address)
+					if a0, a1 := fieldAddrOf(args[0]), fieldAddrOf(args[1]); a0 != nil && a1 != nil && a0.X == a1.X {
+						slot, _ := a0.X.(*ssa.IndexAddr)
+						if al, isAlloc := a0.X.(*ssa.Alloc); isAlloc {
+							// a copy of the record in a local variable (the range variable)
+							if vals := storesTo(al.Parent(), al); len(vals) == 1 {
+								if cp, ok := vals[0].(*ssa.UnOp); ok {
+									slot, _ = cp.X.(*ssa.IndexAddr)
+								}
+							}
+						}
+						if ia := slot; ia != nil {
+							probe := &ssa.UnOp{Op: token.MUL, X: ia}
+							lv := elemFieldValues(probe, a0.Field)
+							fv := elemFieldValues(probe, a1.Field)
+							if len(lv) == 1 && len(fv) == 1 {
+								args = []ssa.Value{lv[0], fv[0]}
+							}
+						}
+					}
 					ld, ok := args[0].(*ssa.UnOp)
 					var ia *ssa.IndexAddr
 					if ok {
@@ -208,4 +239,77 @@ func fieldOfValue(f *ssa.Field) (string, string) {
 		return "", ""
 	}
 	return typeShort(f.X.Type()), st.Field(f.Field).Name()
+}
+
+// elemFieldValues: elem is an element read from a slice of structs (by index or by range)
+// that was built in the module - made in this function or returned by a helper - by storing
+// whole records into its slots; the values those records had in the given field.
+func elemFieldValues(elem ssa.Value, field int) []ssa.Value {
+	ld, ok := elem.(*ssa.UnOp)
+	if !ok {
+		return nil
+	}
+	ia, ok := ld.X.(*ssa.IndexAddr)
+	if !ok {
+		return nil
+	}
+	var makes []*ssa.MakeSlice
+	var origin func(v ssa.Value, d int)
+	origin = func(v ssa.Value, d int) {
+		if d > 4 {
+			return
+		}
+		switch x := v.(type) {
+		case *ssa.MakeSlice:
+			makes = append(makes, x)
+		case *ssa.Phi:
+			for _, e := range x.Edges {
+				origin(e, d+1)
+			}
+		case *ssa.Slice:
+			origin(x.X, d+1)
+		case *ssa.Call:
+			if h := x.Call.StaticCallee(); h != nil && fnInModule(h) && len(h.Blocks) > 0 {
+				for _, b := range h.Blocks {
+					if ret, ok := b.Instrs[len(b.Instrs)-1].(*ssa.Return); ok && len(ret.Results) >= 1 {
+						origin(ret.Results[0], d+1)
+					}
+				}
+			}
+		}
+	}
+	origin(ia.X, 0)
+	var out []ssa.Value
+	for _, mk := range makes {
+		if mk.Referrers() == nil {
+			continue
+		}
+		for _, r := range *mk.Referrers() {
+			sia, ok := r.(*ssa.IndexAddr)
+			if !ok || sia.Referrers() == nil {
+				continue
+			}
+			for _, r2 := range *sia.Referrers() {
+				// the record built in place: stores into the fields of the slot
+				if fa, ok := r2.(*ssa.FieldAddr); ok && fa.Field == field && fa.Referrers() != nil {
+					for _, r3 := range *fa.Referrers() {
+						if st, ok := r3.(*ssa.Store); ok && st.Addr == ssa.Value(fa) {
+							out = append(out, st.Val)
+						}
+					}
+					continue
+				}
+				st, ok := r2.(*ssa.Store)
+				if !ok || st.Addr != ssa.Value(sia) {
+					continue
+				}
+				vals, ok := fieldValues(st.Val, field, 0)
+				if !ok {
+					return nil
+				}
+				out = append(out, vals...)
+			}
+		}
+	}
+	return out
 }
